@@ -179,3 +179,74 @@ plan, run_shard, replay_specs, finish = module_api(
           "operation sequence with numbers abstracted"),
     floors={"observations": 500, "expunged_msgs": 30, "copied_msgs": 30, "observer_msgs_compared": 2000},
 )
+
+
+# ---------------------------------------------------------------- scheduled tier
+# COPY / MOVE / EXPUNGE from several sessions at once under the deterministic
+# scheduler: the messages each command took or left, and the final contents of
+# both mailboxes, must be those of some sequential order (the comparison is
+# C10's: sequential runs of the same server, COPY/MOVE step-split).  Reported
+# here because what it decides for these sets is conservation: exactly the
+# addressed messages are copied, moved or removed.
+SCHED_SETS = [
+    [("#", ["nodeleted"]), ("INBOX", ["UID MOVE 1 other"]), ("INBOX", ["UID COPY 1:5 other"])],
+    [("#", ["nodeleted"]), ("INBOX", ["UID MOVE 2:3 other"]), ("INBOX", ["UID COPY 1:5 other"]), ("INBOX", ["UID COPY 4:5 other"])],
+    [("#", ["nodeleted"]), ("INBOX", ["UID MOVE 1,4 other"]), ("other", ["UID MOVE 1:2 INBOX"]), ("INBOX", ["UID COPY 2:5 other"])],
+    [("INBOX", ["UID MOVE 1:2 other"]), ("INBOX", ["EXPUNGE"]), ("INBOX", ["UID COPY 3:5 other"])],
+    [("INBOX", ["UID EXPUNGE 2"]), ("INBOX", ["UID MOVE 3:5 other"]), ("other", ["UID COPY 1:3 INBOX"])],
+    [("pop3", ["DELE 3", "QUIT"]), ("INBOX", ["UID MOVE 1:2 other"]), ("INBOX", ["UID COPY 3:5 other"])],
+]
+
+_plan_hist, _run_hist = plan, run_shard
+
+
+def run_sched_shard(spec):
+    from collections import Counter
+
+    from ..common import Case, INCONCLUSIVE
+    from ..gen import rng
+    from . import c10
+
+    counts = Counter()
+    cases = []
+    for k in spec["scripts"]:
+        rnd = rng(spec["seed"], "c05sched", k)
+        if k < len(SCHED_SETS):
+            cmdset = SCHED_SETS[k]
+        else:
+            movers = [f"UID MOVE {rnd.randint(1, 3)}:{rnd.randint(3, 5)} other", f"UID MOVE {rnd.randint(1, 5)} other", "UID MOVE 1:* other"]
+            copiers = [f"UID COPY {rnd.randint(1, 2)}:{rnd.randint(3, 5)} other", "UID COPY 1:* other", f"UID COPY {rnd.randint(1, 5)} INBOX"]
+            removers = ["EXPUNGE", "UID EXPUNGE 2", "UID EXPUNGE 4"]
+            cmdset = [("INBOX", [rnd.choice(movers)]), ("INBOX", [rnd.choice(copiers)])]
+            if rnd.random() < 0.5:
+                cmdset.append(("INBOX", [rnd.choice(removers + copiers)]))
+            if rnd.random() < 0.5:
+                cmdset.insert(0, ("#", ["nodeleted"]))
+            rnd.shuffle(cmdset)
+        cmdset = [(w, list(c)) for w, c in cmdset]
+        try:
+            got = c10.explore(spec, 100000 + k, cmdset, counts, spec["scratch"], spec.get("nsched", 8), spec.get("systematic", 6))
+        except Exception:
+            import traceback
+
+            got = [Case.make(f"sched{k}", INCONCLUSIVE, spec=dict(spec, scripts=[k]), reason="harness exception: " + traceback.format_exc()[-400:])]
+        for c in got:
+            c["id"] = f"sched{k}"
+            c["spec"] = dict(spec, scripts=[k])
+        cases += got
+    return {"cases": cases, "counts": {("sched_" + a if not a.startswith("sched") else a): b for a, b in counts.items()}}
+
+
+def plan(tier, seed, scale):
+    specs = _plan_hist(tier, seed, scale)
+    n = int((24 if tier == "quick" else 400) * scale)
+    shards = 8 if tier == "quick" else 16
+    for s in range(shards):
+        specs.append({"prop": PROP, "tier": tier, "seed": seed, "shard": 100 + s, "mode": "sched", "scripts": list(range(n))[s::shards], "nsched": 8 if tier == "quick" else 25, "systematic": 6 if tier == "quick" else 40})
+    return specs
+
+
+def run_shard(spec):
+    if spec.get("mode") == "sched":
+        return run_sched_shard(spec)
+    return _run_hist(spec)
